@@ -210,15 +210,17 @@ TIE_SEEK = TIE_LAYOUT + ["line_start_tie", "next_line_start_tie", "in_gap_tie", 
 TIE_LEN = TIE_LAYOUT + ["data_len_tie", "last_line_start_tie"]
 TIE_LINEPOS = TIE_LEN + ["line_start_tie", "linePosBody_eq", "line_pos_loop", "index_line_pos_tie", "data_line_pos_tie"]
 TIE_CATCHUP = ["cacheOpen_follows_plan", "add_missing_data_tie"]
+TIE_PROCESS = ["process_tie"]
+TIE_SAMPLER = ["sampler_process_tie"]
 TIES = {
     "C01": TIE_SEEK + TIE_META, "C02": TIE_SEEK, "C13": TIE_SEEK, "C18": TIE_SEEK,
-    "C14": TIE_SEEK + ["pos_lines_tie"], "C10": TIE_SEEK + ["pos_lines_tie"],
-    "C11": TIE_SEEK + ["pos_lines_tie", "estimate_lines_tie", "data_len_tie"],
-    "C19": TIE_SEEK + ["pos_lines_tie", "estimate_lines_tie"] + [t for t in TIE_LINEPOS if t not in TIE_SEEK] + TIE_CATCHUP,
-    "C09": TIE_LINEPOS + TIE_CATCHUP, "C08": TIE_LINEPOS + TIE_CATCHUP,
+    "C14": TIE_SEEK + ["pos_lines_tie"], "C10": TIE_SEEK + ["pos_lines_tie"] + TIE_SAMPLER,
+    "C11": TIE_SEEK + ["pos_lines_tie", "estimate_lines_tie", "data_len_tie"] + TIE_SAMPLER,
+    "C19": TIE_SEEK + ["pos_lines_tie", "estimate_lines_tie"] + [t for t in TIE_LINEPOS if t not in TIE_SEEK] + TIE_CATCHUP + TIE_PROCESS,
+    "C09": TIE_LINEPOS + TIE_CATCHUP + TIE_PROCESS, "C08": TIE_LINEPOS + TIE_CATCHUP + TIE_PROCESS,
     "C12": TIE_LEN + ["range_tie", "first_meta_timestamp_tie", "time_range_update_tie"],
     "C04": TIE_LEN + TIE_META, "C05": TIE_LEN, "C06": TIE_LEN + TIE_META,
-    "C07": TIE_LAYOUT + TIE_META, "C15": TIE_LAYOUT + TIE_META, "C03": ["MAX_SMALL_TS_tie", "time_range_update_tie"],
+    "C07": TIE_LAYOUT + TIE_META, "C15": TIE_LAYOUT + TIE_META, "C03": ["MAX_SMALL_TS_tie", "time_range_update_tie", "process_tie"],
 }
 
 # property-level statements about the TRANSLATED functions (BS/Props/GenCore.lean)
